@@ -372,6 +372,9 @@ func (rr *rulesRunner) handleCommentMatch(rule goCommentRule, m matchData) bool 
 	rr.reportData.Node = node
 	rr.reportData.Message = message
 	rr.reportData.Suggestion = suggestion
+	// A comment is not walked as a part of a function;
+	// don't leave the function of an earlier report here.
+	rr.reportData.Func = nil
 
 	rr.ctx.Report(&rr.reportData)
 	return true
